@@ -134,9 +134,11 @@ func vfParamsHarness(nParams, maxLen int, roundTrip bool) {
 	vfReach("end")
 }
 
-func VerifHarness_C11_paramsL1() { vfParamsHarness(1, 1, false) }
-func VerifHarness_C11_paramsL2() { vfParamsHarness(1, 2, false) }
-func VerifHarness_C11_paramsL3() { vfParamsHarness(1, 3, false) }
-func VerifHarness_C10_paramsL1() { vfParamsHarness(1, 1, true) }
-func VerifHarness_C10_paramsL2() { vfParamsHarness(1, 2, true) }
-func VerifHarness_C10_paramsL3() { vfParamsHarness(1, 3, true) }
+func VerifHarness_C11_paramsL1()  { vfParamsHarness(1, 1, false) }
+func VerifHarness_C11_paramsL2()  { vfParamsHarness(1, 2, false) }
+func VerifHarness_C11_paramsL3()  { vfParamsHarness(1, 3, false) }
+func VerifHarness_C10_paramsL1()  { vfParamsHarness(1, 1, true) }
+func VerifHarness_C10_paramsL2()  { vfParamsHarness(1, 2, true) }
+func VerifHarness_C10_paramsL3()  { vfParamsHarness(1, 3, true) }
+func VerifHarness_C11_params2x1() { vfParamsHarness(2, 1, false) }
+func VerifHarness_C10_params2x1() { vfParamsHarness(2, 1, true) }
